@@ -1,6 +1,7 @@
 ----------------------------- MODULE Export_C11 -----------------------------
 EXTENDS U_C11, Json, IOUtils
-ASSUME JsonSerialize(IOEnv.JASM_OUT, [m |-> Universe, s |-> UniverseS])
+UR == INSTANCE U_Range
+ASSUME JsonSerialize(IOEnv.JASM_OUT, [m |-> Universe, s |-> UniverseS, r |-> UR!UniverseRange])
 VARIABLE x
 Init == x = 0
 Next == x' = x
